@@ -71,6 +71,16 @@ def cases(tier):
     return cases_()
 
 
+def json_native(v):
+    if v is None or isinstance(v, (bool, int, float, str)):
+        return True
+    if isinstance(v, (list, tuple)):
+        return all(json_native(x) for x in v)
+    if isinstance(v, dict):
+        return all(isinstance(k, str) and json_native(x) for k, x in v.items())
+    return False
+
+
 def observer_spec(name, case=None):
     case = case or {}
     if name == 'stream_file':
@@ -256,6 +266,10 @@ def check(case, ctx):
                 types = {f['name']: f['type'] for f in rd['schema']['fields']}
                 for g, e in zip(got, exp):
                     for name, t in types.items():
+                        if t in ('array', 'object') and not json_native(e.get(name)):
+                            # (arrays / objects holding dates, decimals ... - e.g. collected by a join - are outside the
+                            # file formats' domain: their members have no declared type to be read back with)
+                            continue
                         if not c03.value_eq(g.get(name), c03.norm_value(e.get(name), t, fmt), t, fmt):
                             raise Violation('completeness:%s:value' % k, {'field': name, 'got': g.get(name), 'expected': e.get(name),
                                                                           'program': prog})
